@@ -763,3 +763,13 @@ from .variants_enc import BREAKING as _ENC_BREAKING, PRESERVING as _ENC_PRESERVI
 BREAKING += _ENC_BREAKING
 PRESERVING += _ENC_PRESERVING
 UNDECIDED += _ENC_UNDECIDED
+
+# defaulting of the caller's tables written as a statement
+_LBL_DEFAULT = "    labels = labels if labels is not None else {}\n"
+PRESERVING += [
+    ('p4-labels-default-stmt', None, [(A, _LBL_DEFAULT, "    if labels is None:\n        labels = {}\n")]),
+]
+BREAKING += [
+    ('c4-labels-default-inverted', ['C03', 'C08'], [(A, _LBL_DEFAULT, "    if labels is not None:\n        labels = {}\n")]),
+    ('c4-labels-always-fresh', ['C03', 'C08'], [(A, _LBL_DEFAULT, "    labels = {}\n")]),
+]
